@@ -839,5 +839,264 @@ Section Sent.
     exists st'. split; [|exact Hat']. apply try_take; [|now rewrite restore_same].
     cbv beta. now rewrite (st_starts_app_ne L _ _ st Hwf Hr t0_ne), Hm, Hmtr.
   Qed.
+
+  (* ---------------- build_mid_result: one loop turn per written item ---------------- *)
+  Notation BL := (build_loop F fread fzero in01 is_alnum E).
+
+  Definition bound (L : nat) (st : pstate) (fuel : nat) : Prop := (L - s_head st + 1 < fuel)%nat.
+
+  Lemma build_item L fuel st j X m (P : pstate -> Prop) :
+    at_ L st (sp j ++ X) m -> nsp X -> X <> [] -> bound L st fuel ->
+    (forall st1, at_ L st1 X m -> exists st2, C1 st1 = POk tt st2 /\ P st2) ->
+    exists fuel' st2, BL fuel st = BL fuel' st2 /\ P st2 /\ bound L st2 fuel'.
+  Proof.
+    intros Hat HX Hne Hb Hone. destruct fuel as [|fuel]; [unfold bound in Hb; lia|].
+    pose proof Hat as (Hwf & Hr & Hm). cbn [build_loop].
+    rewrite (can_consume_ne L st Hwf) by (rewrite Hr; destruct (sp j); [exact Hne | discriminate]).
+    pose proof (skip_spaces_sp L j st X m Hat HX) as Hat1. pose proof Hat1 as (Hwf1 & Hr1 & Hm1).
+    rewrite (can_consume_ne L _ Hwf1) by (rewrite Hr1; exact Hne).
+    destruct (Hone _ Hat1) as (st2 & Hc & HP). rewrite Hc. cbn [pbind].
+    exists fuel, st2. split; [reflexivity|]. split; [exact HP|].
+    pose proof (head_skip_spaces F E L st Hwf) as Hh.
+    assert (Hlt : (s_head st < L)%nat).
+    { apply head_lt; [exact Hwf|]. rewrite Hr. destruct (sp j); [exact Hne | discriminate]. }
+    pose proof (consume_one_good F fread fzero in01 is_alnum E sk_total sk_facts L _ Hwf1) as Hg.
+    rewrite Hc in Hg. cbn in Hg. destruct Hg as [_ Hadv]. unfold adv in Hadv. unfold bound in *. lia.
+  Qed.
+
+  Lemma build_end L fuel st j m : at_ L st (sp j) m -> bound L st fuel ->
+    exists st', BL fuel st = POk tt st' /\ wf L st' /\ s_mid st' = m.
+  Proof.
+    intros Hat Hb. pose proof Hat as (Hwf & Hr & Hm). unfold bound in Hb.
+    destruct j as [|j].
+    - destruct fuel as [|fuel]; [lia|]. cbn [build_loop]. rewrite (can_consume_nil L st Hwf Hr). eauto.
+    - assert (Hne : s_rest st <> []).
+      { rewrite Hr, sp_S. pose proof space_ne. destruct space; [congruence | discriminate]. }
+      pose proof (head_lt L st Hwf Hne). destruct fuel as [|[|fuel]]; [lia | lia|].
+      cbn [build_loop]. rewrite (can_consume_ne L st Hwf Hne).
+      rewrite <- (app_nil_r (sp (S j))) in Hat. apply skip_spaces_sp in Hat; [|apply nsp_nil].
+      destruct Hat as (Hwf1 & Hr1 & Hm1). rewrite (can_consume_nil L _ Hwf1 Hr1). eauto.
+  Qed.
+
+  (* ---- the text after the term, as  spaces ++ core  where the core is empty or starts with an item ---- *)
+  Definition gap3 (s : snarsese) : nat := sn_trail s.
+  Definition core3 (s : snarsese) : str := [].
+  Definition gap2 (s : snarsese) : nat := match sn_truth s with Some (g, _) => g | None => gap3 s end.
+  Definition core2 (s : snarsese) : str :=
+    match sn_truth s with Some (_, nm) => render_truth E nm ++ tail3 E s | None => core3 s end.
+  Definition gap1 (s : snarsese) : nat := match sn_stamp s with Some (g, _) => g | None => gap2 s end.
+  Definition core1 (s : snarsese) : str :=
+    match sn_stamp s with Some (_, x) => render_stamp E x ++ tail2 E s | None => core2 s end.
+  Definition gap0 (s : snarsese) : nat := match sn_punct s with Some (g, _) => g | None => gap1 s end.
+  Definition core0 (s : snarsese) : str :=
+    match sn_punct s with Some (_, a) => punct_kw E a ++ tail1 E s | None => core1 s end.
+
+  Lemma tail3_form s : tail3 E s = sp (gap3 s) ++ core3 s.
+  Proof. unfold tail3, gap3, core3. now rewrite app_nil_r. Qed.
+  Lemma tail2_form s : tail2 E s = sp (gap2 s) ++ core2 s.
+  Proof. unfold tail2, ropt, gap2, core2. destruct (sn_truth s) as [[g nm]|]; [reflexivity | apply tail3_form]. Qed.
+  Lemma tail1_form s : tail1 E s = sp (gap1 s) ++ core1 s.
+  Proof. unfold tail1, ropt, gap1, core1. destruct (sn_stamp s) as [[g x]|]; [reflexivity | apply tail2_form]. Qed.
+  Lemma tail0_form s : tail0 E s = sp (gap0 s) ++ core0 s.
+  Proof. unfold tail0, ropt, gap0, core0. destruct (sn_punct s) as [[g a]|]; [reflexivity | apply tail1_form]. Qed.
+
+  Lemma core2_ok s : nsp (core2 s) /\ (sentence_stamp_brackets_1 E = [] -> first_not is_int_char (core2 s) = true).
+  Proof.
+    unfold core2, core3. destruct (sn_truth s) as [[g nm]|]; [|split; [apply nsp_nil | reflexivity]].
+    unfold render_truth, render_nums. rewrite <- !app_assoc. split; [apply nsp_div, sk_sp_t0|].
+    intros Hb. pose proof sk_stamp_rb as H. rewrite Hb in H. apply first_not_app; [exact H | apply t0_ne].
+  Qed.
+
+  (* ---------------- the theorem ---------------- *)
+  Lemma render_ne t v k : odesugar t = Some v -> unamb t k = true -> render E t <> [].
+  Proof.
+    intros Hv Hu Hnil.
+    assert (Hwf : wf (length k) (new_state F k)) by apply wf_new_state.
+    pose proof (Hterm t v k (length k) (new_state F k) (S (sdepth t + length k)) Hv Hu Hwf) as H.
+    rewrite Hnil in H. specialize (H eq_refl ltac:(lia)).
+    pose proof (p_term_good F fzero in01 is_alnum E sk_total sk_facts (length k) (S (sdepth t + length k)) (new_state F k) Hwf) as Hg.
+    rewrite H in Hg. cbn in Hg. destruct Hg as [_ Hadv]; [lia|]. unfold adv in Hadv. cbn in Hadv. lia.
+  Qed.
+
+  Lemma opt_read_spec {A B} (o : option A) (f : A -> option B) r : opt_read o f = Some r ->
+    match o with None => r = None | Some a => exists b, f a = Some b /\ r = Some b end.
+  Proof.
+    unfold opt_read. destruct o as [a|]; [|intros H; injection H as <-; reflexivity].
+    destruct (f a) as [b|]; [|discriminate]. intros H; injection H as <-. eauto.
+  Qed.
+
+  Section Main.
+    Variable s : snarsese.
+    Variable t : term.
+    Variable ob : option (budgetv F).
+    Variable op : option punct.
+    Variable os : option stamp.
+    Variable ot : option (truthv F).
+    Hypothesis Ht : odesugar (sn_term s) = Some t.
+    Hypothesis Hob : opt_read (sn_budget s) (fun x => obudget F fread in01 (fst x)) = Some ob.
+    Hypothesis Hop : opt_read (sn_punct s) (fun x => opunct (snd x)) = Some op.
+    Hypothesis Hos : opt_read (sn_stamp s) (fun x => ostamp (snd x)) = Some os.
+    Hypothesis Hot : opt_read (sn_truth s) (fun x => otruth F fread in01 (snd x)) = Some ot.
+    Hypothesis Hun : sent_unamb F fread fzero in01 E unamb s = true.
+
+    Let L := length (render_narsese E s).
+    Let m0 : mid := mid_empty F.
+    Let m1 : mid := match ob with Some b => mid_set_budget F m0 b | None => m0 end.
+    Let m2 : mid := mid_set_term F m1 t.
+    Let m3 : mid := match op with Some p => mid_set_punct F m2 p | None => m2 end.
+    Let m4 : mid := match os with Some x => mid_set_stamp F m3 x | None => m3 end.
+    Let m5 : mid := match ot with Some x => mid_set_truth F m4 x | None => m4 end.
+
+    Lemma un_parts :
+      unamb (sn_term s) (tail0 E s) = true /\ nsp (from_term E s) /\
+      match sn_budget s with
+      | Some _ => True
+      | None => starts (task_budget_brackets_0 E) (from_term E s) = false \/
+                budget_attempt_fails F fread fzero in01 E (render_narsese E s) (from_term E s) = true
+      end /\
+      match sn_stamp s with
+      | Some (_, x) => nonempty (sentence_stamp_brackets_0 E) || Nat.eqb (ss_sp0 x) 0 = true
+      | None => True
+      end.
+    Proof.
+      unfold sent_unamb in Hun. rewrite !andb_true_iff in Hun. destruct Hun as (((H1 & H2) & H3) & H4).
+      split; [exact H1|]. split; [now apply negb_true_iff in H2|]. split.
+      - destruct (sn_budget s); [exact I|]. apply orb_true_iff in H3 as [H3|H3]; [left; now apply negb_true_iff in H3 | now right].
+      - destruct (sn_stamp s) as [[g x]|]; [exact H4 | exact I].
+    Qed.
+
+    Lemma step_budget fuel st : at_ L st (render_narsese E s) m0 -> bound L st fuel ->
+      exists fuel' st' j, BL fuel st = BL fuel' st' /\ at_ L st' (sp j ++ from_term E s) m1 /\ bound L st' fuel'.
+    Proof.
+      intros Hat Hb. unfold render_narsese in Hat. unfold m1.
+      pose proof (opt_read_spec _ _ _ Hob) as Hb'. destruct (sn_budget s) as [[nm g]|].
+      - destruct Hb' as (b & Hbv & Hob'). rewrite Hob'. cbn [fst] in Hbv.
+        destruct (build_item L fuel st (sn_lead s) (render_budget E nm ++ sp g ++ from_term E s) m0
+                    (fun st2 => at_ L st2 (sp g ++ from_term E s) (mid_set_budget F m0 b)) Hat) as (fuel' & st2 & Heq & HP & Hb2); auto.
+        + unfold render_budget, render_nums. rewrite <- !app_assoc. apply nsp_div, sk_sp_b0.
+        + unfold render_budget, render_nums. pose proof b0_ne. destruct (task_budget_brackets_0 E); [congruence | discriminate].
+        + intros st1 Hat1. apply (one_budget L st1 nm b _ m0 Hat1 eq_refl Hbv).
+        + exists fuel', st2, g. auto.
+      - rewrite Hb'. exists fuel, st, (sn_lead s). auto.
+    Qed.
+
+    Lemma step_term fuel st j : at_ L st (sp j ++ from_term E s) m1 -> bound L st fuel ->
+      exists fuel' st' j', BL fuel st = BL fuel' st' /\ at_ L st' (sp j' ++ core0 s) m2 /\ bound L st' fuel'.
+    Proof.
+      intros Hat Hb. destruct un_parts as (Hu & Hn & Hbud & _).
+      destruct (build_item L fuel st j (from_term E s) m1
+                  (fun st2 => at_ L st2 (sp (gap0 s) ++ core0 s) m2) Hat Hn) as (fuel' & st2 & Heq & HP & Hb2); auto.
+      - unfold from_term. pose proof (render_ne _ _ _ Ht Hu). destruct (render E (sn_term s)); [congruence | discriminate].
+      - intros st1 Hat1. rewrite <- tail0_form. unfold from_term in Hat1, Hn |- *.
+        apply (one_term L st1 (sn_term s) t (tail0 E s) m1 Hat1 Hn); auto.
+        { unfold m1. destruct ob; reflexivity. }
+        pose proof (opt_read_spec _ _ _ Hob) as Hb'. destruct (sn_budget s) as [[nm g]|].
+        + destruct Hb' as (b & _ & Hb''). left. unfold m1. rewrite Hb''. discriminate.
+        + destruct Hbud as [Hbud|Hbud]; [right; left; exact Hbud|]. right; right.
+          unfold budget_attempt_fails, from_term in Hbud.
+          assert (Heq1 : st1 = probe_state F (render_narsese E s) (render E (sn_term s) ++ tail0 E s)).
+          { destruct Hat1 as (Hwf1 & Hr1 & Hm1). apply pstate_eq; cbn [probe_state s_len s_head s_rest s_mid].
+            - apply Hwf1.
+            - assert (Hne : s_rest st1 <> []).
+              { rewrite Hr1. pose proof (render_ne _ _ _ Ht Hu). destruct (render E (sn_term s)); [congruence | discriminate]. }
+              pose proof (head_lt L st1 Hwf1 Hne). destruct Hwf1 as [_ Hlen]. rewrite Hr1 in Hlen. fold L. lia.
+            - exact Hr1.
+            - rewrite Hm1. unfold m1. rewrite Hb'. reflexivity. }
+          rewrite <- Heq1 in Hbud. destruct (consume_budget F fread fzero in01 E st1); try discriminate. eauto.
+      - exists fuel', st2, (gap0 s). auto.
+    Qed.
+
+    Lemma m_term_m2 : m_term F m2 <> None. Proof. discriminate. Qed.
+    Lemma m_term_m3 : m_term F m3 <> None. Proof. unfold m3. destruct op; discriminate. Qed.
+    Lemma m_term_m4 : m_term F m4 <> None. Proof. unfold m4, m3. destruct os, op; discriminate. Qed.
+    Lemma m_punct_m2 : m_punct F m2 = None. Proof. unfold m2, m1. destruct ob; reflexivity. Qed.
+    Lemma m_stamp_m3 : m_stamp F m3 = None. Proof. unfold m3, m2, m1. destruct op, ob; reflexivity. Qed.
+    Lemma m_truth_m4 : m_truth F m4 = None. Proof. unfold m4, m3, m2, m1. destruct os, op, ob; reflexivity. Qed.
+
+    Lemma step_punct fuel st j : at_ L st (sp j ++ core0 s) m2 -> bound L st fuel ->
+      exists fuel' st' j', BL fuel st = BL fuel' st' /\ at_ L st' (sp j' ++ core1 s) m3 /\ bound L st' fuel'.
+    Proof.
+      intros Hat Hb. unfold core0 in Hat. unfold m3.
+      pose proof (opt_read_spec _ _ _ Hop) as Hp'. destruct (sn_punct s) as [[g a]|].
+      - destruct Hp' as (p & Hpv & Hop'). rewrite Hop'. cbn [snd] in Hpv.
+        destruct (punct_arm_spec a p Hpv) as (g0 & sk & Hnth & Hkw & _ & Hne).
+        destruct (build_item L fuel st j (punct_kw E a ++ tail1 E s) m2
+                    (fun st2 => at_ L st2 (sp (gap1 s) ++ core1 s) (mid_set_punct F m2 p)) Hat) as (fuel' & st2 & Heq & HP & Hb2); auto.
+        + apply nsp_div. apply (all_arms_nth _ _ _ _ sk_sp_punct Hnth).
+        + rewrite Hkw. destruct (g0 E); [congruence | discriminate].
+        + intros st1 Hat1. rewrite <- tail1_form. apply (one_punct L st1 a p _ m2 Hat1 m_term_m2 m_punct_m2 Hpv).
+        + exists fuel', st2, (gap1 s). auto.
+      - rewrite Hp'. exists fuel, st, j. auto.
+    Qed.
+
+    Lemma step_stamp fuel st j : at_ L st (sp j ++ core1 s) m3 -> bound L st fuel ->
+      exists fuel' st' j', BL fuel st = BL fuel' st' /\ at_ L st' (sp j' ++ core2 s) m4 /\ bound L st' fuel'.
+    Proof.
+      intros Hat Hb. unfold core1 in Hat. unfold m4. destruct un_parts as (_ & _ & _ & Hnf).
+      pose proof (opt_read_spec _ _ _ Hos) as Hs'. destruct (sn_stamp s) as [[g x]|].
+      - destruct Hs' as (sv & Hsv & Hos'). rewrite Hos'. cbn [snd] in Hsv.
+        destruct (render_stamp_first x Hnf) as (R & HR).
+        assert (Hk : exists kd, stamp_kind (ss_arm x) = Some kd).
+        { unfold ostamp in Hsv. destruct (stamp_kind (ss_arm x)); [eauto | discriminate]. }
+        destruct Hk as (kd & Hk). destruct (stamp_arm_spec _ _ Hk) as (g0 & sk & Hnth & _).
+        pose proof (all_arms_nth _ _ _ _ sk_sp_stamp Hnth) as Hd. cbn beta in Hd.
+        destruct (core2_ok s) as [Hc2 Hc2i].
+        destruct (build_item L fuel st j (render_stamp E x ++ tail2 E s) m3
+                    (fun st2 => exists j', at_ L st2 (sp j' ++ core2 s) (mid_set_stamp F m3 sv)) Hat) as (fuel' & st2 & Heq & (j' & HP) & Hb2); auto.
+        + rewrite HR, <- app_assoc. now apply nsp_div.
+        + rewrite HR. pose proof (diverge_ne _ _ Hd). destruct (stamp_first E (ss_arm x)); [congruence | discriminate].
+        + intros st1 Hat1. rewrite tail2_form in Hat1.
+          destruct (one_stamp L st1 x sv (gap2 s) (core2 s) m3 Hat1 Hc2 Hc2i Hnf m_term_m3 m_stamp_m3 Hsv) as (j' & st' & Hc & Hat').
+          eauto.
+        + exists fuel', st2, j'. auto.
+      - rewrite Hs'. exists fuel, st, j. auto.
+    Qed.
+
+    Lemma step_truth fuel st j : at_ L st (sp j ++ core2 s) m4 -> bound L st fuel ->
+      exists fuel' st' j', BL fuel st = BL fuel' st' /\ at_ L st' (sp j') m5 /\ bound L st' fuel'.
+    Proof.
+      intros Hat Hb. unfold core2 in Hat. unfold m5.
+      pose proof (opt_read_spec _ _ _ Hot) as Ht'. destruct (sn_truth s) as [[g nm]|].
+      - destruct Ht' as (tv & Htv & Hot'). rewrite Hot'. cbn [snd] in Htv.
+        destruct (build_item L fuel st j (render_truth E nm ++ tail3 E s) m4
+                    (fun st2 => at_ L st2 (sp (sn_trail s)) (mid_set_truth F m4 tv)) Hat) as (fuel' & st2 & Heq & HP & Hb2); auto.
+        + unfold render_truth, render_nums. rewrite <- !app_assoc. apply nsp_div, sk_sp_t0.
+        + unfold render_truth, render_nums. pose proof t0_ne. destruct (sentence_truth_brackets_0 E); [congruence | discriminate].
+        + intros st1 Hat1. apply (one_truth L st1 nm tv _ m4 Hat1 m_term_m4 m_truth_m4 Htv).
+        + exists fuel', st2, (sn_trail s). auto.
+      - rewrite Ht'. unfold core3 in Hat. rewrite app_nil_r in Hat. exists fuel, st, j. auto.
+    Qed.
+
+    Lemma parse_main :
+      exists st', parse_narsese F fread fzero in01 is_alnum E (render_narsese E s) = POk (classify F t ob op os ot) st'.
+    Proof.
+      unfold parse_narsese, run_parse, build_mid_result.
+      assert (Hat0 : at_ L (new_state F (render_narsese E s)) (render_narsese E s) m0).
+      { split; [apply wf_new_state | split; reflexivity]. }
+      assert (Hb0 : bound L (new_state F (render_narsese E s)) (S (S (length (s_rest (new_state F (render_narsese E s))))))).
+      { unfold bound. cbn. fold L. lia. }
+      destruct (step_budget _ _ Hat0 Hb0) as (f1 & st1 & j1 & -> & Hat1 & Hb1).
+      destruct (step_term _ _ _ Hat1 Hb1) as (f2 & st2 & j2 & -> & Hat2 & Hb2).
+      destruct (step_punct _ _ _ Hat2 Hb2) as (f3 & st3 & j3 & -> & Hat3 & Hb3).
+      destruct (step_stamp _ _ _ Hat3 Hb3) as (f4 & st4 & j4 & -> & Hat4 & Hb4).
+      destruct (step_truth _ _ _ Hat4 Hb4) as (f5 & st5 & j5 & -> & Hat5 & Hb5).
+      destruct (build_end L f5 st5 j5 m5 Hat5 Hb5) as (st6 & -> & Hwf6 & Hm6).
+      cbn [pbind]. unfold transform_mid_result. rewrite Hm6.
+      unfold m5, m4, m3, m2, m1, m0, classify. destruct ot, os, op, ob; cbn; eauto.
+    Qed.
+  End Main.
+
+  Theorem parse_narsese_render s v :
+    odesugar_narsese F fread in01 s = Some v -> sent_unamb F fread fzero in01 E unamb s = true ->
+    exists st', parse_narsese F fread fzero in01 is_alnum E (render_narsese E s) = POk v st'.
+  Proof.
+    intros Hv Hu. unfold odesugar_narsese in Hv.
+    destruct (odesugar (sn_term s)) as [t|] eqn:Ht; [|discriminate].
+    destruct (opt_read (sn_budget s) _) as [ob|] eqn:Hob; [|discriminate].
+    destruct (opt_read (sn_punct s) _) as [op|] eqn:Hop; [|discriminate].
+    destruct (opt_read (sn_stamp s) _) as [os|] eqn:Hos; [|discriminate].
+    destruct (opt_read (sn_truth s) _) as [ot|] eqn:Hot; [|discriminate].
+    injection Hv as <-. now apply parse_main.
+  Qed.
 (*MARK*)
 End Sent.
